@@ -495,8 +495,41 @@ func CheckLinearizable(res *ChurnResult, timeout time.Duration) (findings []Find
 			st.Unknown++
 		case porcupine.Illegal:
 			_ = info
+			key := "not-linearizable:" + pk[strings.Index(pk, "/")+1:]
+			if strings.HasSuffix(pk, "/prefix") {
+				// a PrefixList that runs concurrently with appends/removes of the same key is not an
+				// atomic snapshot in the memory store (it iterates a concurrent set): if the history
+				// is linearizable once exactly those listings are set aside (listings without a
+				// concurrent write, e.g. the reads after quiescence, stay in), it is that class
+				relaxed := make([]porcupine.Operation, 0, len(p.ops))
+				dropped := 0
+				for i, op := range p.ops {
+					if op.Input.(linIn).Kind == OpList {
+						concurrent := false
+						for j, w := range p.ops {
+							if i == j {
+								continue
+							}
+							if k := w.Input.(linIn).Kind; (k == OpAppend || k == OpRemove) && w.Call <= op.Return && w.Return >= op.Call {
+								concurrent = true
+								break
+							}
+						}
+						if concurrent {
+							dropped++
+							continue
+						}
+					}
+					relaxed = append(relaxed, op)
+				}
+				if dropped > 0 {
+					if r2, _ := porcupine.CheckOperationsVerbose(model, relaxed, timeout); r2 == porcupine.Ok {
+						key += ":list-snapshot-not-atomic"
+					}
+				}
+			}
 			sort.Slice(p.raw, func(i, j int) bool { return p.raw[i].Call < p.raw[j].Call })
-			findings = append(findings, Finding{Key: "not-linearizable:" + pk[strings.Index(pk, "/")+1:],
+			findings = append(findings, Finding{Key: key,
 				What:    fmt.Sprintf("history of %s (%d operations after removing retryable failures) is not linearizable", pk, len(p.ops)),
 				Witness: map[string]any{"partition": pk, "history": p.raw, "removed_failed_attempts": failedOf(res.Ops, pk), "member_log": res.MemberLog, "store_events": storeEvents(res, pk)}})
 		}
